@@ -1,20 +1,22 @@
 import JunoModel.C15.ProofsBuf
 import JunoModel.C15.ProofsBound
 import JunoModel.C15.ProofsStackSim
+import JunoModel.C15.ProofsStackLift
 /-!
 C15 — property theorems (statements only; helper lemmas are in `Proofs*.lean`).
 Every theorem in this module is an obligation listed in evidence/C15.json with its axioms.
 
 Vocabulary (all defined in `Model.lean`):
-* `memImpl c` — transcription of db/memory (current tree; `c.cbUnlocked` = whether `Get` runs its
-  callback outside the store lock, probed on the real code);
+* `mem2Impl c` — transcription of db/memory as it is in /repo (batch.DeleteRange recorded as a range;
+  `c.cbUnlocked` = whether `Get` runs its callback outside the store lock — both probed on the real code;
+  `memImpl`, the variant with ranges materialised at call time, is old code: RegressF5.lean);
 * `pebImpl` — transcription of the Pebble wrappers db/pebblev2 = db/pebble over an abstract engine;
 * `specImpl` — the contract (ordered map; batch = op log applied at `Write`; iterator over
   `[prefix, UpperBound(prefix))` with positions unpositioned / before / at i / after);
 * `run M w ops` — the outputs of an op sequence, `exec M w ops` — the final state;
 * `inDocumented w ops` — every step is inside the documented contract (`documented`, no reference to
-  any implementation); `inContract c w ops` — additionally db/memory is not on one of its two known
-  defects (`memOK c`: re-entrant `Get` callback; `f5Free`: F5, decided exactly).
+  any implementation); `inDocumentedRE c w ops` — additionally no re-entrant `Get` callback unless
+  `c.cbUnlocked` (= `inDocumented` for the probed `⟨true⟩`).
 
 Frame facts that hold for every `Impl` by construction of `step` (an unwritten batch does not touch
 the store, a snapshot / iterator table entry is not touched by other ops, a failing helper callback
@@ -69,98 +71,33 @@ theorem pebble_wrapper_refines_contract (ops : List Op) (h : inDocumented World.
     run pebImpl World.init ops = run specImpl World.init ops :=
   (run_sim pebSim ops _ _ (R_init pebSim) (by rw [inBoundary_peb]; exact h)).1
 
-/-
-FULL-STRENGTH STATEMENT (does NOT hold for the current code; see the two `memory_defect_*` witnesses):
+/-! ## db/memory (`mem2Impl`, ModelRange.lean: the code in /repo since 36de10a — `batch.DeleteRange` records
+the range itself — and 94ab97c — `Get` calls back outside the store lock, `c.cbUnlocked`)
 
-  theorem mem_refines_spec (ops) (h : inDocumented World.init ops = true) :
-      run (memImpl ⟨false⟩) World.init ops = run specImpl World.init ops
+The harness probes both variants on the real code; the transcriptions of the OLD code (`memImpl`: ranges
+materialised at call time, finding F5) and what was provable about it (`*_partial`, the exact F5 boundary)
+are in RegressF5.lean. -/
 
-Proved instead, for EVERY op sequence: equality of all outputs inside `inContract c`, which besides
-the documented contract excludes exactly
-  (F5)  steps after which, for some live batch, the point deletes db/memory recorded for its
-        `DeleteRange` calls no longer have the effect of those ranges on the present store
-        (`f5Free`; `f5_boundary_is_exact` shows it is the precise condition, `f5_boundary_not_coarse`
-        that a store write under a pending but unaffected range stays inside);
-  (RE)  `Get` with a callback that writes to the store, unless `c.cbUnlocked`.
--/
-theorem mem_refines_spec_partial (c : MemCfg) (ops : List Op)
-    (h : inContract c World.init ops = true) :
-    run (memImpl c) World.init ops = run specImpl World.init ops :=
-  (run_sim (memSim c) ops _ _ (R_init (memSim c)) (by rw [inBoundary_mem]; exact h)).1
-
-/-- THE PROPERTY: db/memory and the Pebble wrappers answer every op of every sequence identically
-(inside the boundary above). -/
-theorem memory_equals_pebble_partial (c : MemCfg) (ops : List Op)
-    (h : inContract c World.init ops = true) :
-    run (memImpl c) World.init ops = run pebImpl World.init ops := by
-  rw [mem_refines_spec_partial c ops h,
-    pebble_wrapper_refines_contract ops (inDocumented_of_inContract c ops _ h)]
-
-/-- F5 witness: `b.DeleteRange("", ff); db.Put(01); b.Write(); scan` — `01` survives on memory. -/
-theorem memory_defect_batch_deleterange :
-    run (memImpl ⟨true⟩) World.init
-      [.newBatch false, .bdelRange 0 [] [255], .put [1] [9], .bwrite 0, .scan .db [] false] ≠
-    run pebImpl World.init
-      [.newBatch false, .bdelRange 0 [] [255], .put [1] [9], .bwrite 0, .scan .db [] false] := by decide
-
-/-- RE witness: `db.Put(01); db.Get(01, func(v) { return db.Put(02, v) })` never returns on memory
-(`hang`), returns the value and stores `02` on Pebble. -/
-theorem memory_defect_get_callback_write :
-    run (memImpl ⟨false⟩) World.init [.put [1] [7], .getw .db [1] [2] [7], .has .db [2]] ≠
-    run pebImpl World.init [.put [1] [7], .getw .db [1] [2] [7], .has .db [2]] := by decide
-
-/-- the two witnesses are outside the boundary; with `cbUnlocked` the second one is inside -/
-theorem witnesses_outside_boundary :
-    inContract ⟨true⟩ World.init
-      [.newBatch false, .bdelRange 0 [] [255], .put [1] [9], .bwrite 0, .scan .db [] false] = false ∧
-    inContract ⟨false⟩ World.init [.put [1] [7], .getw .db [1] [2] [7], .has .db [2]] = false ∧
-    inContract ⟨true⟩ World.init [.put [1] [7], .getw .db [1] [2] [7], .has .db [2]] = true := by decide
-
-/-- The F5 clause is the exact condition: for a db/memory batch that recorded what the contract's
-ghost says (`writes = mlog`), flushing it onto a store `d` gives the contract's result iff
-`batchAgrees d` — so a step excluded by `f5Free` is one after which `Write` (or a scan of the batch)
-differs between memory and Pebble, and a step not excluded is one after which it does not. -/
-theorem f5_boundary_is_exact (mb : MBatch) (sb : SBatch) (d : KV)
-    (hw : mb.writes = sb.mlog.map LogOp.toWrite) (hp : pointOnly sb.mlog) :
-    mb.flush d = applyLog d sb.log ↔ batchAgrees d sb = true := by
-  unfold MBatch.flush
-  rw [hw, flush_mlog _ hp d]
-  simp [batchAgrees]
-
-/-- … and it is not coarse: store writes while another live batch holds a `DeleteRange` stay inside
-the boundary as long as they do not land in a range the batch emptied (the reviewer's example and a
-range that misses the written key), and the outputs agree. -/
-theorem f5_boundary_not_coarse :
-    inContract ⟨false⟩ World.init [.newBatch false, .bdelRange 0 [5] [5], .put [1] [9], .bwrite 0, .scan .db [] false] = true ∧
-    inContract ⟨false⟩ World.init
-      [.put [3] [3], .newBatch true, .bdelRange 0 [2] [4], .put [7] [9], .del [3], .get (.batch 0) [7] false,
-       .bwrite 0, .scan .db [] false] = true := by decide
-
-/-! ## db/memory with finding F5 repaired (`mem2Impl`, ModelRange.lean)
-
-`batch.DeleteRange` records the range itself (proposed-fixes/C15-memory-batch-deleterange-recorded-as-range.diff).
-The harness probes which variant the code is; for this one the F5 exclusion is gone. -/
-
-/-- The repaired db/memory refines the contract on EVERY op sequence inside the documented contract
-(plus, only while `Get` still calls back under the store lock, no re-entrant callback): no `f5Free`. -/
-theorem repaired_memory_refines_contract (c : MemCfg) (ops : List Op)
+/-- db/memory refines the contract on EVERY op sequence inside the documented contract (plus, only for the
+variant whose `Get` calls back under the store lock, no re-entrant callback). -/
+theorem memory_refines_contract (c : MemCfg) (ops : List Op)
     (h : inDocumentedRE c World.init ops = true) :
     run (mem2Impl c) World.init ops = run specImpl World.init ops :=
   (run_sim (mem2Sim c) ops _ _ (R_init (mem2Sim c)) (by rw [inBoundary_mem2]; exact h)).1
 
-/-- THE PROPERTY at full strength, for db/memory with both repairs (callback outside the lock, range
-recorded as a range): it answers every op of every sequence inside the documented contract exactly as
-the Pebble wrappers do. No defect exclusion is left. -/
-theorem repaired_memory_equals_pebble (ops : List Op) (h : inDocumented World.init ops = true) :
+/-- THE PROPERTY at full strength: db/memory (as it is in /repo: callback outside the lock, range recorded
+as a range) answers every op of every sequence inside the documented contract exactly as the Pebble
+wrappers do. No defect exclusion. -/
+theorem memory_equals_pebble (ops : List Op) (h : inDocumented World.init ops = true) :
     run (mem2Impl ⟨true⟩) World.init ops = run pebImpl World.init ops := by
-  rw [repaired_memory_refines_contract ⟨true⟩ ops (by rw [inDocumentedRE_unlocked]; exact h),
+  rw [memory_refines_contract ⟨true⟩ ops (by rw [inDocumentedRE_unlocked]; exact h),
     pebble_wrapper_refines_contract ops h]
 
-/-- Repaired batch, reads and `Write`, on EVERY store — also one that changed after the calls were
-made (the point where the materialising variant fails, cf. `batch_flush_equals_log_fixed_store`): a
-batch built by any list of `Put`/`Delete`/`DeleteRange` reads as the store with the log applied, and
-`Write` applies the log in order. -/
-theorem repaired_batch_equals_log_any_store (c : MemCfg) (log : List LogOp) (d : KV) (k : Key) :
+/-- The db/memory batch, reads and `Write`, on EVERY store — also one that changed after the calls were
+made: a batch built by any list of `Put`/`Delete`/`DeleteRange` reads as the store with the log applied
+(indexed batches read their own writes over the database; later operations win), and `Write` applies the
+log in order. -/
+theorem batch_equals_log_any_store (c : MemCfg) (log : List LogOp) (d : KV) (k : Key) :
     (mem2Build log ((mem2Impl c).bempty true)).get d k = (applyLog d log).get k ∧
     (mem2Build log ((mem2Impl c).bempty true)).flush d = applyLog d log := by
   obtain ⟨h1, h2⟩ := mem2Build_ok log _ m2OK_empty
@@ -169,9 +106,9 @@ theorem repaired_batch_equals_log_any_store (c : MemCfg) (log : List LogOp) (d :
   exact ⟨by rw [show (mem2Impl c).bempty true = (⟨[], [], [], 0⟩ : M2Batch) from rfl, h1 d k, h2]; rfl,
     by rw [m2_flush_eq, hw]⟩
 
-/-- the replay of finding F5 and the `Size()`-after-`DeleteRange` difference: the repaired variant
+/-- the replay of finding F5 (fixed by 36de10a) and the `Size()`-after-`DeleteRange` difference: db/memory
 answers as the wrappers do -/
-theorem repaired_resolves_f5_witness :
+theorem f5_witness_resolved :
     run (mem2Impl ⟨true⟩) World.init
       [.newBatch false, .bdelRange 0 [] [255], .put [1] [9], .bsize 0, .bwrite 0, .scan .db [] false] =
     run pebImpl World.init
@@ -231,8 +168,8 @@ iterator, on db/memory's and on the contract's. -/
 theorem prefix_size_exact (c : MemCfg) (content : KV) (p : Key) (u : Bool) :
     let out := content.filter (fun x => specBound p u x.1)
     prefixSize pebImpl content p u = (out.length, sumSizes out) ∧
-    prefixSize (memImpl c) content p u = (out.length, sumSizes out) := by
-  exact ⟨prefixSize_eq pebSim content p u, prefixSize_eq (memSim c) content p u⟩
+    prefixSize (mem2Impl c) content p u = (out.length, sumSizes out) := by
+  exact ⟨prefixSize_eq pebSim content p u, prefixSize_eq (mem2Sim c) content p u⟩
 
 /-! ## Stacks of wrappers over the contract (ModelStack.lean)
 
@@ -292,6 +229,29 @@ theorem stack_refines_sequential (ops : List SOp) (h : inStackContract AWorld.in
     srun specImpl SWorld.init ops = arun AWorld.init ops :=
   srun_sim ops _ _ RS_init h
 
+/-- Stacks of wrappers over db/memory answer like the same stacks over the contract: every op sequence of
+the stack language inside the documented contract (`inStackDoc`: storage ops as in `documented`, a call on a
+layer as the same call on the batch at the bottom of its chain; for db/memory additionally no re-entrant
+`Get` callback unless `c.cbUnlocked`). -/
+theorem stack_memory_refines_contract (c : MemCfg) (ops : List SOp)
+    (h : inStackDoc (mem2Sim c) SWorld.init ops = true) :
+    srun (mem2Impl c) SWorld.init ops = srun specImpl SWorld.init ops :=
+  srun_lift (mem2Sim c) rfl (fun _ _ _ => rfl) (fun _ _ => rfl) ops _ _ (RX_init _) h
+
+/-- … and so do stacks over the Pebble wrappers. -/
+theorem stack_pebble_refines_contract (ops : List SOp) (h : inStackDocumented SWorld.init ops = true) :
+    srun pebImpl SWorld.init ops = srun specImpl SWorld.init ops :=
+  srun_lift pebSim rfl (fun _ _ _ => rfl) (fun _ _ => rfl) ops _ _ (RX_init _)
+    (by rw [inStackDoc_of_okTrue pebSim (fun _ => rfl)]; exact h)
+
+/-- THE PROPERTY for stacks of wrappers: over db/memory (as in /repo) and over the Pebble wrappers, every
+store / batch / snapshot / iterator op and every call on every `BufferBatch` / `SyncBatch` of every stack
+answers identically, for every op sequence inside the documented contract. -/
+theorem stack_memory_equals_pebble (ops : List SOp) (h : inStackDocumented SWorld.init ops = true) :
+    srun (mem2Impl ⟨true⟩) SWorld.init ops = srun pebImpl SWorld.init ops := by
+  rw [stack_memory_refines_contract ⟨true⟩ ops (by rw [inStackDoc_of_okTrue (mem2Sim ⟨true⟩) memOK_true]; exact h),
+    stack_pebble_refines_contract ops h]
+
 /-- why `Size()` is outside `stack_refines_sequential`: the real buffer issues one call per KEY, the
 sequential machine one per CALL, so the byte counter of the wrapped batch differs after a flush -/
 theorem stack_size_differs :
@@ -300,34 +260,6 @@ theorem stack_size_differs :
     arun AWorld.init [.base (.base (.newBatch true)), .lnew .buf (.batch 0), .lcall 0 (.put [1] [7]),
       .lcall 0 (.put [1] [8]), .lflush 0, .base (.base (.bsize 0))] := by decide
 
-/-! ## Batches -/
-
-/-- Later operations win (db/memory `writes` list): after `Write`, a key holds what the LAST entry
-of the batch for that key says (value, or absent for a delete); untouched keys keep the store's. -/
-theorem later_wins_memory (b : MBatch) (d : KV) (k : Key) :
-    (b.flush d).get k =
-      match lastWrite b.writes k with
-      | some w => if w.delete then none else some w.value
-      | none => d.get k := by
-  unfold MBatch.flush
-  rw [foldl_apply_get]
-  cases lastWrite b.writes k <;> rfl
-
-/-- `Write` = the op log: for a db/memory batch built by any list of `Put`/`Delete`/`DeleteRange`
-calls over a store that does not change meanwhile, flushing gives the log applied in order. (Over a
-store that changes, this is `mem_refines_spec_partial`; it fails exactly on F5.) -/
-theorem batch_flush_equals_log_fixed_store (d : KV) (hd : Sorted d) (log : List LogOp) :
-    (memBuild d log ((memImpl ⟨false⟩).bempty true)).flush d = applyLog d log := by
-  obtain ⟨sb', h1, h2⟩ := memBuild_rb d hd log _ _ ((memSim ⟨false⟩).empty true (some d))
-  rw [rbM_flush h2 d, h2.2.2.2.1 d rfl, h1]; rfl
-
-/-- Indexed batches read their own writes over the store: `batch.Get(k)` of db/memory (write map
-first, then the store) = lookup of `k` in the store with the batch's op log applied. -/
-theorem indexed_reads_own_writes (d : KV) (hd : Sorted d) (log : List LogOp) (k : Key) :
-    (memBuild d log ((memImpl ⟨false⟩).bempty true)).get d k = (applyLog d log).get k := by
-  obtain ⟨sb', h1, h2⟩ := memBuild_rb d hd log _ _ ((memSim ⟨false⟩).empty true (some d))
-  rw [rbM_get k h2, h1]; rfl
-
 /-! ## Iteration (all three implementations, forward and backward) -/
 
 /-- `First`, then `Next` until invalid, yields exactly the entries of the store whose key lies in
@@ -335,12 +267,12 @@ theorem indexed_reads_own_writes (d : KV) (hd : Sorted d) (log : List LogOp) (k 
 on db/memory, on the Pebble wrappers and in the contract, for all arguments. -/
 theorem iteration_exact (c : MemCfg) (content : KV) (hc : Sorted content) (p : Key) (u : Bool) :
     let out := content.filter (fun x => specBound p u x.1)
-    scan (memImpl c) content p u = out ∧ scan pebImpl content p u = out ∧ scan specImpl content p u = out ∧
+    scan (mem2Impl c) content p u = out ∧ scan pebImpl content p u = out ∧ scan specImpl content p u = out ∧
     out.Pairwise (fun a b => lexLt a.1 b.1 = true) ∧
     (∀ k v, (k, v) ∈ out ↔
       (content.get k = some v ∧ lexLe p k = true ∧
         (u = true → ∀ w, upperBound p = some w → lexLt k w = true))) := by
-  refine ⟨by rw [scan_sim (memSim c), spec_scan], by rw [scan_sim pebSim, spec_scan], spec_scan _ _ _,
+  refine ⟨by rw [scan_sim (mem2Sim c), spec_scan], by rw [scan_sim pebSim, spec_scan], spec_scan _ _ _,
     hc.filter _, ?_⟩
   intro k v
   rw [List.mem_filter, ← hc.get_eq_some]
@@ -354,18 +286,18 @@ theorem iteration_exact (c : MemCfg) (content : KV) (hc : Sorted content) (p : K
 on all three. With `t` above every key this is the whole range backwards. -/
 theorem reverse_iteration_exact (c : MemCfg) (content : KV) (hc : Sorted content) (p : Key) (u : Bool) (t : Key) :
     let out := ((content.filter (fun x => specBound p u x.1)).filter (fun x => lexLt x.1 t)).reverse
-    rscan (memImpl c) content p u t = out ∧ rscan pebImpl content p u t = out ∧
+    rscan (mem2Impl c) content p u t = out ∧ rscan pebImpl content p u t = out ∧
     rscan specImpl content p u t = out := by
   have hs : rscan specImpl content p u t =
       ((content.filter (fun x => specBound p u x.1)).filter (fun x => lexLt x.1 t)).reverse := by
     rw [spec_rscan, take_seekIdx_eq_filter t _ (hc.filter _)]
-  exact ⟨by rw [rscan_sim (memSim c), hs], by rw [rscan_sim pebSim, hs], hs⟩
+  exact ⟨by rw [rscan_sim (mem2Sim c), hs], by rw [rscan_sim pebSim, hs], hs⟩
 
 /-- `Seek(t)` then `Prev` lands on the greatest key `< t` of the range (in particular: seek past the
 end, then `Prev`, gives the last key), or is invalid if there is none — db/memory and wrappers. -/
 theorem prev_greatest_below (c : MemCfg) (content : KV) (hc : Sorted content) (p : Key) (u : Bool) (t : Key) :
     let below := (content.filter (fun x => specBound p u x.1)).filter (fun x => lexLt x.1 t)
-    (memImpl c).icur ((memImpl c).iprev ((memImpl c).iseek ((memImpl c).imk content p u) t).1).1 = below.getLast? ∧
+    (mem2Impl c).icur ((mem2Impl c).iprev ((mem2Impl c).iseek ((mem2Impl c).imk content p u) t).1).1 = below.getLast? ∧
     pebImpl.icur (pebImpl.iprev (pebImpl.iseek (pebImpl.imk content p u) t).1).1 = below.getLast? := by
   have key : ∀ {B I : Type} {M : Impl B I} (S : Sim M),
       M.icur (M.iprev (M.iseek (M.imk content p u) t).1).1 =
@@ -401,7 +333,7 @@ theorem prev_greatest_below (c : MemCfg) (content : KV) (hc : Sorted content) (p
       · have hl : ks.length - 1 = i := by omega
         have hpos : 0 < ks.length := by omega
         simp [SIter.seek, SIter.prev, SIter.last, SIter.cur, hn, hpos, hl]
-  exact ⟨key (memSim c), key pebSim⟩
+  exact ⟨key (mem2Sim c), key pebSim⟩
 
 /-- `Next`: once invalid the iterator remains invalid (db/iterator.go) — for every db/memory resp.
 wrapper iterator state that represents a contract state (all reachable ones do). -/
@@ -423,21 +355,17 @@ theorem next_invalid_stays_invalid (mi : MIter) (pi : PIter) (si si' : SIter) (h
     have := snext_after_stays si' (by simpa using h)
     simp [this]
 
-/-- … lifted to every reachable state: after ANY op sequence inside the boundary, every live iterator
-of db/memory (either batch variant) and of the Pebble wrappers has the property — `Next` returned false
-once, it returns false again (and the iterator shows no entry). -/
+/-- … lifted to every reachable state: after ANY op sequence inside the documented contract, every live
+iterator of db/memory and of the Pebble wrappers has the property — `Next` returned false once, it
+returns false again (and the iterator shows no entry). -/
 theorem next_invalid_stays_invalid_reachable (c : MemCfg) (ops : List Op) (i : Nat)
-    (h : inContract c World.init ops = true) :
-    (∀ mi, (exec (memImpl c) World.init ops).iters i = some (some mi) →
-      mi.next.2 = false → mi.next.1.next.2 = false ∧ mi.next.1.next.1.kv = none) ∧
+    (h : inDocumentedRE c World.init ops = true) :
     (∀ mi, (exec (mem2Impl c) World.init ops).iters i = some (some mi) →
       mi.next.2 = false → mi.next.1.next.2 = false ∧ mi.next.1.next.1.kv = none) ∧
     (∀ pi, (exec pebImpl World.init ops).iters i = some (some pi) →
       pi.next.2 = false → pi.next.1.next.2 = false ∧ pi.next.1.next.1.iter.kv = none) := by
-  have hdoc := inDocumented_of_inContract c ops _ h
-  have hre : inDocumentedRE c World.init ops = true := inDocumentedRE_of_inContract c ops _ h
-  have r1 := (run_sim (memSim c) ops _ _ (R_init (memSim c)) (by rw [inBoundary_mem]; exact h)).2.iters i
-  have r2 := (run_sim (mem2Sim c) ops _ _ (R_init (mem2Sim c)) (by rw [inBoundary_mem2]; exact hre)).2.iters i
+  have hdoc : inDocumented World.init ops = true := inDocumented_of_inDocumentedRE c ops _ h
+  have r2 := (run_sim (mem2Sim c) ops _ _ (R_init (mem2Sim c)) (by rw [inBoundary_mem2]; exact h)).2.iters i
   have r3 := (run_sim pebSim ops _ _ (R_init pebSim) (by rw [inBoundary_peb]; exact hdoc)).2.iters i
   have key : ∀ (mi : MIter) (si : SIter), RI mi si → mi.next.2 = false →
       mi.next.1.next.2 = false ∧ mi.next.1.next.1.kv = none := by
@@ -447,15 +375,7 @@ theorem next_invalid_stays_invalid_reachable (c : MemCfg) (ops : List Op) (i : N
     rw [h1.2] at hf
     have hs := snext_after_stays si (by simpa using hf)
     exact ⟨by rw [h2.2]; simp [hs], by rw [RI_cur h2.1]; exact hs⟩
-  refine ⟨?_, ?_, ?_⟩
-  · intro mi hmi
-    rw [hmi] at r1
-    cases hs : (exec specImpl World.init ops).iters i with
-    | none => rw [hs] at r1; exact r1.elim
-    | some y =>
-      cases y with
-      | none => rw [hs] at r1; exact r1.elim
-      | some si => rw [hs] at r1; exact key mi si r1
+  refine ⟨?_, ?_⟩
   · intro mi hmi
     rw [hmi] at r2
     cases hs : (exec specImpl World.init ops).iters i with
@@ -530,7 +450,7 @@ def sampleOps : List Op :=
    .scan .db [255] true, .update true true [.put [5] [5], .get [5] false],
    .update false false [.del []], .iclose 0, .sclose 0, .reopen, .close, .get .db [1] false]
 
-example : inContract ⟨false⟩ World.init sampleOps = true := by decide
+example : inDocumented World.init sampleOps = true := by decide
 example : run specImpl World.init sampleOps =
     [.r .ok, .r .ok, .r .ok, .r .ok, .handle 0, .r .ok, .r .ok, .r .notfound, .handle 0, .r .ok, .handle 0,
      .pos true (some ([1, 255], [7])), .pos false none, .pos false none, .pos true (some ([1, 255], [7])),
@@ -541,10 +461,8 @@ example : run specImpl World.init sampleOps =
      .r (.list [([1, 255, 0], []), ([1, 255], [7]), ([1], [1]), ([], [9])]),
      .r (.list []),
      .upd [.ok, .val [5]] .errCb, .upd [.ok] .ok, .r .ok, .r .ok, .r .ok, .r .ok, .r .errClosed] := by decide
-example : run (memImpl ⟨false⟩) World.init sampleOps = run pebImpl World.init sampleOps := by decide
-example : run (mem2Impl ⟨false⟩) World.init sampleOps = run pebImpl World.init sampleOps := by decide
-/-- the F5 replay is inside the documented contract (what the repaired variant is proved on) and
-outside `inContract` (what the materialising variant is proved on) -/
+example : run (mem2Impl ⟨true⟩) World.init sampleOps = run pebImpl World.init sampleOps := by decide
+/-- the replay of (fixed) finding F5 is inside the documented contract -/
 example : inDocumented World.init
     [.newBatch false, .bdelRange 0 [] [255], .put [1] [9], .bwrite 0, .scan .db [] false] = true := by decide
 example : inDocumentedRE ⟨false⟩ World.init sampleOps = true := by decide
@@ -562,10 +480,10 @@ example : xrun specImpl BWorld.init
      .bufOther 0, .bufWrite 0, .base (.scan .db [] false), .bufPut 0 [5] [5], .bufGet 0 [2] false, .bufWrite 0] =
     [.r .ok, .handle 0, .r .ok, .r .ok, .r .notfound, .r (.val [2]), .r .notfound, .r .notfound, .r .ok,
      .r (.val [2]), .r .panic, .r .ok, .r (.list [([2], [2])]), .r .panic, .r .errClosed, .r .errClosed] := by decide
-example : (match (exec (memImpl ⟨true⟩) World.init [.put [1] [1], .iter .db [] false, .first 0]).iters 0 with
+example : (match (exec (mem2Impl ⟨true⟩) World.init [.put [1] [1], .iter .db [] false, .first 0]).iters 0 with
     | some (some mi) => !mi.next.2
     | _ => false) = true := by decide
-example : inContract ⟨true⟩ World.init [.put [1] [1], .iter .db [] false, .first 0] = true := by decide
+example : inDocumentedRE ⟨true⟩ World.init [.put [1] [1], .iter .db [] false, .first 0] = true := by decide
 example : [([2], some [2]), ([1], none)].Perm ([([1], none), ([2], some [2])] : List (Key × Option Val)) :=
   List.Perm.swap _ _ _
 example : prefixSize pebImpl [([1], [1, 1]), ([1, 255], []), ([2], [9])] [1] true = (2, 5) := by decide
@@ -600,6 +518,8 @@ def tombstoneOps : List SOp :=
 example : srun specImpl SWorld.init tombstoneOps =
     [.handle 0, .handle 0, .r .ok, .r .ok, .r .ok, .r .notfound, .r (.val [11]), .r .ok, .r (.list [])] := by decide
 example : inStackContract AWorld.init tombstoneOps = true := by decide
+example : inStackDocumented SWorld.init tombstoneOps = true := by decide
+example : srun (mem2Impl ⟨true⟩) SWorld.init tombstoneOps = srun specImpl SWorld.init tombstoneOps := by decide
 /-- three buffers over one batch flushed 2, 0, 1; a `SyncBatch` in between; `Write` from the top of a chain -/
 def siblingOps : List SOp :=
   [.base (.base (.put [1] [1])), .base (.base (.newBatch true)), .lnew .buf (.batch 0), .lnew .buf (.batch 0), .lnew .sync (.batch 0),
@@ -607,6 +527,8 @@ def siblingOps : List SOp :=
    .lflush 3, .lflush 0, .lcall 3 (.get [1] false), .lflush 1, .lcall 2 (.scan [] false), .lcall 3 (.has [1]),
    .lcall 3 .write, .base (.base (.scan .db [] false)), .lcall 3 (.put [5] [5]), .lcall 0 (.get [2] false)]
 example : inStackContract AWorld.init siblingOps = true := by decide
+example : inStackDocumented SWorld.init siblingOps = true := by decide
+example : inStackDoc (mem2Sim ⟨false⟩) SWorld.init siblingOps = true := by decide
 example : srun specImpl SWorld.init siblingOps =
     [.r .ok, .handle 0, .handle 0, .handle 1, .handle 2, .handle 3, .r .ok, .r .ok, .r .ok, .r (.val [1]),
      .r .ok, .r .ok, .r (.val [10]), .r .ok, .r (.list [([2], [13])]), .r .panic,
